@@ -2,6 +2,9 @@
    correction sets; that each back-end's enumeration returns those sets is C15 / the correspondence check). *)
 From InfOCF Require Import Core Tol SysW Form Model Spec ThmOps ThmTop.
 From InfOCFProps Require Import Ex.
+From InfOCF Require Import PyLib TieZ TieW TieWTop.
+From InfOCFGen Require Import SrcW.
+From Coq Require Import ZArith.
 
 Theorem C03_system_w_is_preferred_structure : forall n D q P, D <> [] -> part_strict n D = Some P ->
   infer n SysW false D q = Ans (w_spec (worlds n) P q).
@@ -15,6 +18,30 @@ Proof. intros Wl q P. rewrite w_spec_iff. unfold SysW.spec. split.
   - intros H w' Hw' Hf. destruct (H w' Hw' eq_refl Hf) as [w [? [_ [? ?]]]]. eauto.
   - intros H w' Hw' _ Hf. destruct (H w' Hw' Hf) as [w [? [? ?]]]. exists w. unfold top. auto. Qed.
 Print Assumptions C03_w_spec_meaning.
+
+(* SOURCE TIE.  py_SystemW_inference (with py_SystemW_rec_inference and py_w_any_subset_of_all) is GENERATED on every
+   run from /repo's system_w.py (coq/gen/SrcW.v).  CNFs and the MaxSAT enumeration enter by their contracts (PyLib.scnf,
+   PyLib.mcs - what C15 establishes).  For every base with distinct keys, every layering of it, every query and either
+   mode the generated function returns the model's answer ... *)
+Theorem C03_source_code_is_model : forall n q D, NoDup (map kz D) ->
+  forall (lay:cond -> nat) m, (forall c, In c D -> lay c < m) -> 0 < m ->
+  forall nf fd : dict Z scnf, dict_keys nf = map kz D ->
+  (forall c, In c D -> exists cn, zdict_find nf (kz c) = Some cn /\ forall w, scnf_holds cn w = negb (fal c w)) ->
+  (forall c, In c D -> exists cn, zdict_find fd (kz c) = Some cn /\ forall w, scnf_holds cn w = fal c w) ->
+  forall bb, (forall c, In c D -> zdict_find (bb_conditionals bb) (kz c) = Some c) ->
+  forall weakly vq0 fq0 u1 u2,
+  py_SystemW_inference n (S m) (Pk D lay m) nf fd vq0 fq0 bb u1 q weakly u2
+  = Return (if weakly then w_ext n (acP (Pc D lay m)) q else w_strict n (acP (Pc D lay m)) q).
+Proof. exact tie_w_inference. Qed.
+Print Assumptions C03_source_code_is_model.
+(* ... and, on the partition of a strongly consistent base (which is such a layering) and the dictionaries as
+   preprocessing fills them, the preferred-structure definition *)
+Theorem C03_source_code_is_preferred_structure : forall n D, NoDup (map kz D) -> forall q P vq0 fq0, D <> [] -> part_strict n D = Some P ->
+  exists lay m b, P = acP (Pc D lay m) /\
+    py_SystemW_inference n (S m) (Pk D lay m) (nf_of D) (fd_of D) vq0 fq0 (bb_of D) tt q false tt = Return b /\
+    (trivial n q || b) = w_spec (worlds n) P q.
+Proof. exact src_w_strict_spec. Qed.
+Print Assumptions C03_source_code_is_preferred_structure.
 
 Example birds_w : map (infer 4 SysW false birds) [q_fp; q_nfp; q_wp] = [Ans false; Ans true; Ans true].
 Proof. vm_compute. reflexivity. Qed.
